@@ -31,21 +31,24 @@ Definition served (expire nc n : Z) : bool :=
 (* Range: visited iff not (expire != 0 && expire <= now) *)
 Definition rangeVisible (expire n : Z) : bool := negb (negb (expire =? 0) && (expire <=? n)).
 
-(* setShardWithoutLock on an existing entry: (new deadline, reschedule flag) *)
-Definition updateExpire (old new : Z) : Z * bool :=
-  if 0 <? new then (new, negb (old =? new)) else (old, false).
+(* setShardWithoutLock on an existing entry at clock reading [now]: (new deadline, reschedule flag).
+   A call without TTL keeps the deadline unless the previous value has already expired. *)
+Definition updateExpire (old new now : Z) : Z * bool :=
+  if 0 <? new then (new, negb (old =? new))
+  else if (new =? 0) && negb (old =? 0) && (old <=? now) then (0, true)
+  else (old, false).
 
 (* Set: deadline for a call at clock reading [now] with [ttl] (0 = none) *)
 Definition setExpire (now ttl : Z) : Z := if ttl =? 0 then 0 else expireNano now ttl.
 
 (* integer-list interface:
    [0;now;ttl] -> [setExpire]   [1;expire;nc;n] -> [served]
-   [2;expire;n] -> [rangeVisible]   [3;old;new] -> [deadline; reschedule] *)
+   [2;expire;n] -> [rangeVisible]   [3;old;new;now] -> [deadline; reschedule] *)
 Definition ex_step (u : unit) (op : list Z) : unit * list Z :=
   match op with
   | [0; now; ttl] => (u, [setExpire now ttl])
   | [1; e; nc; n] => (u, [b2z (served e nc n)])
   | [2; e; n] => (u, [b2z (rangeVisible e n)])
-  | [3; old; new] => let '(d, r) := updateExpire old new in (u, [d; b2z r])
+  | [3; old; new; now] => let '(d, r) := updateExpire old new now in (u, [d; b2z r])
   | _ => (u, [-1])
   end.
